@@ -107,3 +107,31 @@ Proof.
   repeat split; assumption.
 Qed.
 Print Assumptions replace_instance.
+
+(* C07 non-vacuity: thread 0 inserts node 3, thread 2 looks it up and deletes it (flag, unlink, ownership exchange: 18 steps).  Node 3 is then unlinked, thread 1 is
+   between operations without an iterator; whatever the three threads do afterwards - thread 1 adds a node to the same chain, looks it up, replaces it - thread 1
+   never accesses node 3's word *)
+Require Import Urcu.Lfht.LfhtDead.
+Lemma R_s0 : R C0 1 s0.
+Proof.
+  intros x [Hx _]. apply insd0 in Hx. unfold isB0 in Hx. apply orb_prop in Hx. destruct Hx as [H|H]; apply N.eqb_eq in H; subst x.
+  - apply rt1n_refl.
+  - apply reachf_step; [vm_compute; reflexivity|discriminate].
+Qed.
+Example no_access_instance : forall cs,
+  let s1 := fst (run hloc hloc_eqb (hprog C0) (repeat (Step 0%nat) 6 ++ repeat (Step 2%nat) 18) s0) in
+  let s' := fst (run hloc hloc_eqb (hprog C0) cs s1) in
+  dead C0 1 s1 3 /\ dead C0 1 s' 3 /\ touches (hact (tpc _ _ (THr C0 s' 1%nat))) <> Some (HNext 3).
+Proof.
+  intros cs s1 s'.
+  assert (HI0 : Inv2 C0 isB0 s0) by (destruct Inv3_s0 as [_ H _ _]; exact H).
+  destruct (lfht_reachable_all_schedules C0 isB0 Hbkt0 1 eq_refl (repeat (Step 0%nat) 6 ++ repeat (Step 2%nat) 18) s0 HI0 R_s0) as [HI HR]. fold s1 in HI, HR.
+  assert (Hd : dead C0 1 s1 3).
+  { split; [vm_compute; reflexivity|]. intros H.
+    apply reachf_inv_step in H. destruct H as [E|[_ H]]; [discriminate|]. replace (LfhtRch.nxf C0 s1 1) with 2 in H by (vm_compute; reflexivity).
+    apply reachf_inv_step in H. destruct H as [E|[Hz _]]; [discriminate|]. apply Hz. vm_compute. reflexivity. }
+  assert (Hc : clean C0 s1 1%nat 3) by (apply idle_clean; vm_compute; reflexivity).
+  destruct (no_access_after_unlink C0 isB0 Hbkt0 1 eq_refl cs s1 1%nat 3 HI HR Hd Hc ltac:(discriminate)) as (A & _ & B).
+  split; [exact Hd|]. split; [exact A|exact B].
+Qed.
+Print Assumptions no_access_instance.
